@@ -24,9 +24,44 @@ ASSUMPTIONS = ['measured in this sandbox: hashbrown 0.13 / ahash 0.8.3 (no runti
 MIN_EVALS = {'quick': 600, 'thorough': 6000}
 
 
+def many_commands_grammar(r):
+    """States that offer several external commands at once (plain, shell-specific for every shell, built-in
+    PATH / DIRECTORY), at one and at several `||` levels, at top level and inside words: every per-state list of
+    command ids in every emitter has more than one element."""
+    from ..gast import lit, nt, cmd, seq, alt, fb, opt, many, call, defn
+    names = r.sample(['HOST', 'REMOTE', 'BRANCH', 'TAG', 'USER', 'Q1', 'zone', 'KEY'], r.randint(3, 7))
+    stmts = []
+    for i, n in enumerate(names):
+        k = r.random()
+        if k < 0.5:
+            for sh in common.SHELLS:
+                stmts.append(defn(n, sh, cmd('echo %s_%s' % (n, sh))))
+            if r.random() < 0.5:
+                stmts.append(defn(n, None, cmd('echo %s_plain' % n)))
+        elif k < 0.8:
+            stmts.append(defn(n, None, cmd('echo %s_plain' % n)))
+        else:
+            stmts.append(defn(n, r.choice(common.SHELLS), cmd('echo %s_one' % n)))
+    refs = [nt(n) for n in names] + [nt('PATH'), nt('DIRECTORY')][:r.randint(0, 2)]
+    r.shuffle(refs)
+    cut = r.randint(1, len(refs))
+    first = alt(*refs[:cut])
+    e = first if cut == len(refs) else fb(first, alt(*refs[cut:]))
+    body = seq(opt(lit('--verbose')), e, opt(('word', (lit('--depth='), alt(*[nt(n) for n in r.sample(names, min(3, len(names)))])))),
+               lit('done'))
+    if r.random() < 0.4:
+        body = seq(body, many(alt(*refs[:3])))
+    stmts.append(call('cmd', body))
+    r.shuffle(stmts)
+    return stmts
+
+
 def big_grammar(r):
-    if r.random() < 0.34:
+    k = r.random()
+    if k < 0.3:
         return common.permuted_pairs_grammar(r, r.randint(25, 60))
+    if k < 0.5:
+        return many_commands_grammar(r)
     g = gen.Gen(r, depth=r.choice([4, 5, 6]), ndefs=(3, 12), specs=r.random() < 0.5, builtins=r.random() < 0.4,
                 max_width=4, fallbacks=0.2, p_word=0.3)
     return g.grammar()
